@@ -75,6 +75,31 @@ PROPS = {
         technique='Lean 4 proof (mailbox invariant, cache invariants by induction over histories) + model/implementation '
                   'correspondence on request histories',
     ),
+    'C20': dict(
+        areas=[],
+        procs=['preview'], needs_fzf=True,
+        rule='preview: the real fzf in a private tmux server with a --preview command that logs pid, line and query of every '
+             'invocation and then runs for a line-specific time (instant, 0.15 s, 0.4 s, incremental output, never-ending); '
+             'templates with {}, {q}, {+}, {f}; 2..13 actions (cursor moves incl. two in one request, change-query, toggles, '
+             'refresh-preview, toggle-preview) 0..150 ms apart; the number of live preview processes is sampled after every '
+             'action; at quiescence (state and log stable for 0.75 s; 2 s more when not caught up) the last logged invocation, '
+             'the preview pane, and after the session the process table and $TMPDIR are observed (24 sessions quick, 400 thorough)',
+        trusted=['tmux as terminal emulator', '/proc as process table', 'the schedules actually produced (the theorems quantify '
+                 'over all traces of the model, the sessions sample schedules of the implementation)'],
+        level_text='Lean 4 theorems over a transition-system model of the previewer (mailbox holding only the latest request, '
+                   'one command at a time, watcher goroutine with droppable cancel tokens and mailbox polling, version counter, '
+                   'display requests): along every trace the invocation log is strictly increasing in request number; at '
+                   'quiescence the last command run is the one for the latest request and the display request last handed to '
+                   'the render loop carries its complete output under the current version; in every reachable state a '
+                   'superseded command can be marked to be killed; and a machine-checked witness that without the polling '
+                   'transition a cancel sent too early is lost for good (finding F20, repaired). The model is tied to /repo '
+                   'by interactive sessions judged against those guarantees.',
+        level_note='Partial: the previewer is embedded in Terminal.Loop and cannot be driven in-process, so the tie is by '
+                   'observation of sampled schedules (log, process table, pane), not a step-by-step correspondence; process '
+                   'groups, pipes and signals are the operating system\'s.',
+        technique='Lean 4 proof (LTS invariant over all traces, reachability of the kill, negative witness) + interactive '
+                  'sessions against the real binary judged by the model\'s guarantees',
+    ),
     'C13': dict(
         areas=[('matcher', 300, 20000), ('rank', 3000, 300000)],
         procs=['race'],
